@@ -23,6 +23,8 @@ import LemoModel.Frame
     closefacts <n>                 -> `ok` iff the fact table Close.closeSites has n rows, else `table-mismatch`
     closefact <row>                -> `ok` iff <row> (stmt|function|guard) is a row of the table, else `table-mismatch`
     closehammer <k>                -> outcome of k simultaneous closers under the table's locking discipline
+    sitefacts <n> / sitefact <row> -> same for the panic-site inventory Sites.table (function|kind|expression);
+                                      duplicate rows are matched with multiplicity through the count
 -/
 namespace Driver.C15
 open LemoModel.Frame Driver
@@ -80,7 +82,7 @@ def step (s : St) (w : List String) : St × String :=
         | .err e => Ev.err e
         | .panic x => Ev.panic x
         | .heartbeat _ => Ev.hb
-        | .deliver c pl _ => Ev.msg c pl.length
+        | .deliver c pl _ => Ev.msg c pl.length (chk pl)
       (s, s!"{o.show} mib={st.alloc / mib}")
     | _, _ => (s, "bad-op")
   | ["hs", p, m, h] =>
@@ -103,6 +105,12 @@ def step (s : St) (w : List String) : St × String :=
     | none => (s, "bad-op")
   | ["closefact", row] =>
     (s, if (Close.closeSites.map Close.CloseSite.row).contains row then "ok" else "table-mismatch")
+  | ["sitefacts", n] =>
+    match n.toNat? with
+    | some n => (s, if n = Sites.table.length then "ok" else "table-mismatch")
+    | none => (s, "bad-op")
+  | ["sitefact", row] =>
+    (s, if (Sites.table.map Sites.Row.row).contains row then "ok" else "table-mismatch")
   | ["closehammer", k] =>
     match k.toNat? with
     | some k =>
